@@ -89,7 +89,7 @@ fn collapse(ctx: &Ctx, r: &mut Report) {
 }
 
 fn heikin_valid(ctx: &Ctx, r: &mut Report) {
-	for k in 0..ctx.pick(40u64, 400) {
+	for k in 0..ctx.pick(160u64, 400) {
 		if !ctx.mine(k) {
 			continue;
 		}
@@ -329,7 +329,7 @@ fn renko_case(b: f64, source: Source, seed: u64, steps: usize, r: &mut Report) {
 fn renko(ctx: &Ctx, r: &mut Report) {
 	let sizes: [f64; 12] = [V::EPSILON as f64 * 4.0, 1e-6, 1e-4, 0.001, 0.01, 0.0123, 0.05, 0.1, 0.25, 0.5, 0.9, 0.999];
 	let sources = [Source::Close, Source::Open, Source::High, Source::Low, Source::HL2, Source::TP, Source::Volume, Source::VolumedPrice];
-	let reps = ctx.pick(6u64, 60);
+	let reps = ctx.pick(24u64, 60);
 	let mut k = 0u64;
 	for &b in &sizes {
 		for &s in &sources {
